@@ -35,7 +35,10 @@ Case (driver "fallback"):
   {"host": "example.com", "port": 80,
    "outcomes": [{"k": "refused" | "timeout" | "tcp_timeout" | "noroute" | "connect_error" | "bind" |
                       "other_sync" | "other_async" | "socks_error" | "socks_no_method" | "closed" |
-                      "success", "rep": 1..8 (socks_error)} ...]}     one per connectTCP attempt
+                      "success", "rep": 1..8 (socks_error),
+                 "after": [10, 15, 5] (optional)} ...]}              one per connectTCP attempt
+"after": the TCP attempt stays pending while the fake reactor's clock is advanced by these steps (seconds) and only
+then gets its outcome; a timeout outcome arrives at the timeout the endpoint gave connectTCP (30 s), others earlier.
 """
 from __future__ import annotations
 
@@ -70,12 +73,15 @@ RULE = ("Part A (driver 'choose'): Hypothesis-generated SOCKSPort stores in a re
         "answer held back - over the same stores plus 'SocksPort unset, config/defaults lists 1..2 SocksPort lines "
         "with option words', with TorConfig bootstrapped alone or together with another event subscription before "
         "the first SETEVENTS is answered; the reference Tor sends CONF_CHANGED only to a controller whose last "
-        "SETEVENTS named it; 12 fixed sessions. "
+        "SETEVENTS named it; a refusal of our SETCONF (552/513/553) after another controller's change was "
+        "announced inside the window; 14 fixed sessions. "
         "Part B (driver 'fallback'): TorClientEndpoint without a SOCKS endpoint, connect() on a fake reactor whose "
         "connectTCP outcome per attempt is drawn from connection errors (refused, timeout, no route, bind, generic), "
         "other exceptions (raised by connectTCP, or reported asynchronously), SOCKS-level failures after TCP "
-        "success (error reply 1..8, no acceptable method), early close, success; all 144 two-step outcome "
-        "sequences are also enumerated. "
+        "success (error reply 1..8, no acceptable method), early close, success; each outcome promptly or only "
+        "after the clock advanced in steps while the TCP attempt was pending (a timeout after the 30 s the endpoint "
+        "gave connectTCP, anything else after 10..29 s); all 144 prompt two-step outcome sequences and 253 with "
+        "late outcomes are also enumerated. "
         "Non-trivial (A) = a port had to be added while Tor already had at least one entry carrying option words "
         "and the single SETCONF was judged against Tor's lines; (A2) = a request or an overlapping pair was judged "
         "after at least one state-making step (refusal, unsaved edit, foreign change, overlap, shared bootstrap); "
@@ -133,6 +139,10 @@ ASSUMPTIONS = [
     "TorClientEndpoint.socks_ports_to_try); a 'connection error' is twisted.internet.error.ConnectError or a "
     "subclass; a TCP connection that is closed before any SOCKS reply may count as a connection error or not "
     "(both continuations accepted); 'reports the last error' is compared by exception type and arguments",
+    "Part B: while a TCP attempt is pending and the timeout the endpoint itself passed to connectTCP has not run "
+    "out, nothing may happen (no next port, no completion, no cancellation): the statement lets the endpoint move "
+    "on 'only after a connection error'; waiting is only exercised in the TCP phase - how long an accepted "
+    "connection may take to answer SOCKS is not stated, no clock advance is made there",
 ]
 
 ADDING_NOREQ = ("tor_default", "tor_web_agent", "tor_stream_via", "tor_dns_resolve", "from_connection")
@@ -481,7 +491,7 @@ def _judge_add(res, w, route, lines, ents, expected_new, out, recs, changing, fa
     if any(v is None or v == "" for v in vals):
         res.bad("relisted-entries-differ", "empty/bare SocksPort item in %r" % rec["line"])
         return False
-    stale = [v for v in vals if v in pending["refused"]]
+    stale = [v for v in vals if v in pending["refused"] and v != expected_new]
     if stale:
         res.bad("refused-earlier-request-sent-again", "Tor refused %r earlier (and the caller was told so); the "
                 "SETCONF for %r lists it again: %r" % (stale, expected_new, rec["line"]))
@@ -738,10 +748,14 @@ def _session_steps():
                         st.sampled_from(["idle", "save_in_flight", "save_in_flight"]))
     overlap = st.builds(lambda a, b: {"op": "overlap", "picks": [a, b]}, _picks(), _picks())
     save = st.just({"op": "save"})
+    window = st.builds(lambda sp_, ls, keep, code: {"op": "refused_in_window", "spec": sp_, "lines": ls, "keep": keep,
+                                                    "code": code},
+                       st.sampled_from(FRESH_SPECS), sp.entry_lines(1, 2, allow_auto=False),
+                       st.sampled_from([True, True, False]), st.sampled_from([552, 513, 553]))
     by_kind = {"request": request, "edit": edit, "refused": refused, "foreign": foreign, "overlap": overlap,
-               "save": save}
-    kinds = st.sampled_from(["request"] * 7 + ["edit"] * 3 + ["refused", "foreign", "foreign", "overlap", "overlap",
-                                                              "save"])
+               "save": save, "refused_in_window": window}
+    kinds = st.sampled_from(["request"] * 8 + ["edit"] * 3 + ["refused", "foreign", "foreign", "overlap", "overlap",
+                                                              "save", "refused_in_window", "refused_in_window"])
     return st.lists(kinds.flatmap(lambda k: by_kind[k]), min_size=1, max_size=6)
 
 
@@ -787,6 +801,12 @@ def _fixed_sessions():
                 boot="with_listener")
     yield s(["9050"], [{"op": "foreign", "lines": ["9150"], "keep": True, "window": "idle"},
                        rq({"kind": "present", "i": 1, "full": False})], boot="with_listener", echo=False)
+    # our SETCONF is on the wire, another controller changes SocksPort, Tor refuses ours; then further requests
+    for keep in (True, False):
+        yield s(["9050"], [{"op": "refused_in_window", "spec": "9999", "lines": ["9060 IsolateSOCKSAuth"],
+                            "keep": keep, "code": 552},
+                           rq({"kind": "spec", "spec": "9998"}), rq({"kind": "present", "i": 1, "full": False}),
+                           rq(fresh)])
 
 
 class _Session(object):
@@ -829,6 +849,9 @@ class _Session(object):
             vals = [v for _, v in rec["items"]]
             self.pending["add"] = [p for p in self.pending["add"] if p not in vals]
             self.pending["other"] -= keys
+        # a line Tor once refused and has accepted since is one of Tor's lines now
+        held = self.w.lines()
+        self.pending["refused"] = [p for p in self.pending["refused"] if p not in held]
 
     # -- steps
     def do_request(self, step):
@@ -886,6 +909,8 @@ class _Session(object):
                 return True
             cfg.SocksPort.append(v)
             self.pending["add"].append(v)
+            if v in self.pending["refused"]:        # now it is the application's own unsaved edit
+                self.pending["refused"].remove(v)
         elif what == "nickname":
             cfg.Nickname = v
             self.pending["other"].add("Nickname")
@@ -911,12 +936,12 @@ class _Session(object):
             return False
         return not wd.failed
 
-    def do_foreign(self, step):
-        res, w = self.res, self.w
+    def foreign_lines(self, step):
+        """What the other controller sets SocksPort to, or None if the step does not apply now."""
+        w = self.w
         if self.pending["add"] or w.sim.get("SocksPort") is None and w.lines() != (w.sim.default("SocksPort") or []):
             # unsaved SocksPort edits / a __SocksPort-based store: what the event should do is not stated
-            res.excluded.append("foreign-change-not-applicable")
-            return True
+            return None
         kept = w.lines() if step["keep"] else []
         ports, paths = sp._used(kept)
         new = list(kept)
@@ -927,6 +952,57 @@ class _Session(object):
             new.append(ln)
             (paths if k[0] == "unix" else ports).add(k[1] if k[0] == "unix" else k[2])
         if not new or new == w.lines():
+            return None
+        return new
+
+    def do_refused_in_window(self, step):
+        """create_socks_endpoint(<fresh line>) writes its SETCONF; before Tor reads it another controller changes
+        SocksPort and Tor announces that; then Tor refuses our SETCONF.  Nothing of ours was configured, Tor
+        runs with the other controller's lines - the following requests are judged against those."""
+        res, w = self.res, self.w
+        new = self.foreign_lines(step)
+        req = step["spec"]
+        if new is None or req in self.pending["refused"]:
+            res.excluded.append("foreign-change-not-applicable")
+            return True
+        for lines in (w.lines(), new):
+            if _classify_request(req, sp.listeners(lines), lines)[0] != "absent":
+                res.excluded.append("pick-not-applicable")
+                return True
+        pipe = w.pipe
+        s0 = len(w.sim.setconfs)
+        pipe.auto = False
+        try:
+            wd = Watch(w.cfg.create_socks_endpoint(w.reactor, req))     # SETCONF written, Tor has not read it
+            pipe.produce(w.foreign_set(new))                            # ...the other controller was first
+            w.sim.reject_next(step.get("code", 552), "Unacceptable option value: refused by the reference Tor")
+        finally:
+            pipe.auto = True
+        pipe.pump()
+        w.sim.cancel_rejects()
+        recs = w.sim.setconfs[s0:]
+        res.label("step:refused-with-foreign-change-in-window")
+        if pipe.escaped:
+            res.bad("exception-escaped-dataReceived", repr(pipe.escaped[0]))
+            return False
+        if len(recs) != 1 or recs[0]["accepted"]:
+            res.bad("port-needed-but-not-added" if not recs else "not-exactly-one-setconf",
+                    "create_socks_endpoint(%r) with Tor holding %r wrote %r" % (req, w.lines(), [r["line"] for r in recs]))
+            return False
+        if not wd.failed:
+            res.bad("refused-request-reported-success", "Tor answered %d to %r: %r" % (
+                recs[0]["code"], recs[0]["line"], wd.outcome()))
+            return False
+        if w.lines() != new:
+            raise HarnessError("the reference store is %r, expected the foreign lines %r" % (w.lines(), new))
+        self.pending["refused"].append(req)
+        self.state_steps += 1
+        return True
+
+    def do_foreign(self, step):
+        res, w = self.res, self.w
+        new = self.foreign_lines(step)
+        if new is None:
             res.excluded.append("foreign-change-not-applicable")
             return True
         window = step["window"]
@@ -1093,7 +1169,7 @@ def drive_session(case):
     res = Result()
     s = _Session(case, res)
     ops = {"request": s.do_request, "refused": s.do_refused, "edit": s.do_edit, "foreign": s.do_foreign,
-           "overlap": s.do_overlap, "save": s.do_save}
+           "overlap": s.do_overlap, "save": s.do_save, "refused_in_window": s.do_refused_in_window}
     if case.get("boot", "alone") != "alone":
         res.label("boot:" + case["boot"])
         s.state_steps += 1
@@ -1143,11 +1219,24 @@ class _ScriptedReactor(FakeReactor):
         return c
 
 
+TIMEOUT_STEPS = [[30], [10, 15, 5], [10, 10, 10], [19, 2, 9], [25, 5], [1, 29]]
+DELAY_STEPS = [[10], [10, 15], [19, 2], [21], [25], [29], [5, 5, 5, 5, 5]]
+
+
+def _delayed(o, draw_steps):
+    """The outcome arrives only after the clock has advanced (in steps) while the TCP attempt was pending."""
+    if o["k"] == "other_sync":
+        return o
+    return dict(o, after=draw_steps[1] if o["k"] in ("timeout", "tcp_timeout") else draw_steps[0])
+
+
 def _outcome():
     plain = st.sampled_from(KINDS).map(lambda k: {"k": k})
     socks = st.integers(1, 8).map(lambda n: {"k": "socks_error", "rep": n})
     conn = st.sampled_from(sorted(CONNECT_ERRORS)).map(lambda k: {"k": k})
-    return st.one_of(plain, conn, conn, socks, st.just({"k": "success"}))
+    prompt = st.one_of(plain, conn, conn, socks, st.just({"k": "success"}))
+    steps = st.tuples(st.sampled_from(DELAY_STEPS), st.sampled_from(TIMEOUT_STEPS))
+    return st.one_of(prompt, prompt, st.builds(_delayed, prompt, steps))
 
 
 def fallback_cases():
@@ -1164,6 +1253,22 @@ def all_two_step_cases():
             yield {"host": "example.com", "port": 80,
                    "outcomes": [dict({"k": a}, **({"rep": 5} if a == "socks_error" else {})),
                                 dict({"k": b}, **({"rep": 4} if b == "socks_error" else {}))]}
+
+
+def delayed_two_step_cases():
+    """The first attempt's outcome arrives late (a TCP timeout after the full 30 s in steps, anything else after
+    25 s); every kind second, promptly or late."""
+    for a in KINDS:
+        if a == "other_sync":
+            continue
+        first = dict({"k": a}, **({"rep": 5} if a == "socks_error" else {}))
+        first["after"] = [10, 15, 5] if a in ("timeout", "tcp_timeout") else [10, 15]
+        for b in KINDS:
+            second = dict({"k": b}, **({"rep": 4} if b == "socks_error" else {}))
+            yield {"host": "example.com", "port": 80, "outcomes": [first, second]}
+            if b != "other_sync":
+                late = dict(second, after=[30] if b in ("timeout", "tcp_timeout") else [21])
+                yield {"host": "example.com", "port": 80, "outcomes": [first, late]}
 
 
 def _same_error(got, want):
@@ -1207,6 +1312,24 @@ def drive_fallback(case):
         o = outcomes[i] if i < len(outcomes) else {"k": "refused"}
         k = o["k"]
         res.label("attempt%d:%s" % (i, k if k not in CONNECT_ERRORS else "connection-error"))
+        # the TCP attempt stays pending while the clock advances (a black-holed port answers nothing until the
+        # timeout the endpoint itself gave to connectTCP); until its outcome arrives nothing else may happen
+        waited = 0
+        for dt in (o.get("after") or []) if not isinstance(conn, Exception) else []:
+            waited += dt
+            limit = conn.timeout if conn.timeout is not None else 30
+            if waited > limit or (waited == limit and k not in ("timeout", "tcp_timeout")):
+                raise HarnessError("case delivers %r after %d s, beyond the connectTCP timeout of %r s" % (
+                    k, waited, limit))
+            r.advance(dt)
+            if conn.state != "connecting" or len(r.attempts) > i + 1 or w.fired:
+                res.bad("pending-attempt-abandoned-before-its-outcome",
+                        "attempt #%d (%s:%d, connectTCP timeout %r s) was still pending after %d s, yet: connector %s, "
+                        "attempts %r, connect() -> %r" % (i, host, port, conn.timeout, waited, conn.state,
+                                                          [a[:2] for a in r.attempts], w.outcome()))
+                return res
+        if waited:
+            res.label("attempt%d:outcome-after-%s" % (i, "the-tcp-timeout" if waited >= 30 else "a-delay"))
         before = i + 1
         if k in CONNECT_ERRORS:
             exc = CONNECT_ERRORS[k](i)
@@ -1361,6 +1484,7 @@ def run(ctx):
     ctx.enumerate("choose", _fixed_choose(), name="fixed-scenarios", exhaustive=False)
     ctx.enumerate("session", _fixed_sessions(), name="fixed-sessions", exhaustive=False)
     ctx.enumerate("fallback", all_two_step_cases(), name="all-two-step-outcome-sequences")
+    ctx.enumerate("fallback", delayed_two_step_cases(), name="two-step-sequences-with-late-outcomes")
     if not ctx.quick():
         ctx.enumerate("choose", grid_cases(), name="route-x-request-grid")
     ctx.search("choose", choose_cases(), quick=1800, thorough=20000)
@@ -1447,6 +1571,22 @@ MUTANTS = [
      "            d = self.queue_command('SETEVENTS %s' % ' '.join(self.events.keys()))\n",
      "            d = self.queue_command('SETEVENTS %s' % ' '.join(list(self.events.keys()) + [evt.name]))\n"
      "            d.addCallback(lambda arg: (self.events.__setitem__(evt.name, evt), arg)[1])\n"),
+    ("config-refusal-cleanup-pops-the-last-entry", T,
+     "                    if socks_config in self.SocksPort:\n                        self.SocksPort.remove(socks_config)\n",
+     "                    if len(self.SocksPort):\n                        self.SocksPort.pop()\n"),
+    ("guess-deadline-shorter-than-the-tcp-timeout", E,
+     "                    proto = yield socks_ep.connect(protocolfactory)\n                    return proto\n\n"
+     "                except error.ConnectError as e0:",
+     "                    proto = yield defer.maybeDeferred(socks_ep.connect, protocolfactory).addTimeout(\n"
+     "                        20, self._reactor)\n                    return proto\n\n"
+     "                except error.ConnectError as e0:"),
+    ("guess-deadline-moves-on-to-the-next-port", E,
+     "                    proto = yield socks_ep.connect(protocolfactory)\n                    return proto\n\n"
+     "                except error.ConnectError as e0:",
+     "                    proto = yield defer.maybeDeferred(socks_ep.connect, protocolfactory).addTimeout(\n"
+     "                        20, self._reactor, lambda v, t: (_ for _ in ()).throw(error.TimeoutError()))\n"
+     "                    return proto\n\n"
+     "                except error.ConnectError as e0:"),
     # needs fixes/C18-refused-socks-port-rolled-back.diff in the tree (matches nothing before)
     ("config-refused-port-stays-in-the-list", T,
      "                    if socks_config in self.SocksPort:\n                        self.SocksPort.remove(socks_config)\n",
